@@ -252,7 +252,9 @@ class DBStorage(BaseStorage):
             )
             result = await conn.execute(query)
 
-            delete_id = None
+            # every older version is replaced: there can be several of them
+            # when versions did not arrive in order
+            delete_ids = []
             if event.is_paramaterized_replaceable:
                 # according to nip-33, an event with a matching "d" tag will be replaced
                 # empty tags include [], [["d"]], and [["d", ""]]
@@ -270,31 +272,25 @@ class DBStorage(BaseStorage):
                             or len(found_tag[0]) == 1
                             or found_tag[0][1] == ""
                         ):
-                            delete_id = old_id
-                            old_ts = created_at
-                            break
+                            delete_ids.append(old_id)
                     elif found_tag:
                         tag = found_tag[0]
                         if len(tag) > 1 and tag[1] == d_tag:
-                            delete_id = old_id
-                            old_ts = created_at
-                            break
+                            delete_ids.append(old_id)
 
             else:
-                row = result.first()
-                if row:
-                    delete_id = row[0]
-                    old_ts = row[1]
-            if delete_id:
+                delete_ids = [row[0] for row in result]
+            if delete_ids:
                 self.log.info(
-                    "Replacing event %s from %s@%s with %s",
-                    delete_id,
+                    "Replacing event(s) %s from %s with %s",
+                    delete_ids,
                     event.pubkey,
-                    old_ts,
                     event.id,
                 )
                 await conn.execute(
-                    self.EventTable.delete().where(self.EventTable.c.id == delete_id)
+                    self.EventTable.delete().where(
+                        self.EventTable.c.id.in_(delete_ids)
+                    )
                 )
         return True
 
